@@ -127,7 +127,7 @@ func workerMain(args []string) {
 					st.Failures = append(st.Failures, fs)
 				}
 			}
-			logDigest = mix64(logDigest ^ s.digest() ^ hashString(verdict) ^ uint64(i)<<20 ^ uint64(j))
+			logDigest += mix64(s.digest() ^ hashString(verdict) ^ uint64(i)<<20 ^ uint64(j) ^ mix64(st.Outcome))
 			if *worker == 0 && len(st.Samples) < 3 && (i/(*workers))%7 == 0 && j == len(scns)/2 {
 				c := s.clone()
 				if len(c.Doc) > 200 {
